@@ -7,11 +7,18 @@ package config_parser
 
 import (
 	"fmt"
+	"unicode/utf8"
+
 	"github.com/antlr/antlr4/runtime/Go/antlr/v4"
 	"github.com/daeuniverse/dae-config-dist/go/dae_config"
 )
 
 func Parse(in string) (sections []*Section, err error) {
+	if !utf8.ValidString(in) {
+		// The lexer works on runes: an invalid byte sequence would silently become U+FFFD inside a
+		// value. Reject the text instead of parsing something that was not written.
+		return nil, fmt.Errorf("the configuration is not valid UTF-8 (invalid byte sequence at offset %v)", firstInvalidUTF8(in))
+	}
 	errorListener := NewConsoleErrorListener()
 	lexer := dae_config.Newdae_configLexer(antlr.NewInputStream(in))
 	lexer.RemoveErrorListeners()
@@ -42,4 +49,15 @@ func Parse(in string) (sections []*Section, err error) {
 	}
 
 	return walker.Sections, nil
+}
+
+func firstInvalidUTF8(s string) int {
+	for i := 0; i < len(s); {
+		r, n := utf8.DecodeRuneInString(s[i:])
+		if r == utf8.RuneError && n == 1 {
+			return i
+		}
+		i += n
+	}
+	return -1
 }
